@@ -237,6 +237,12 @@ func agreeObligations(runs []emitRun) (obls []emitObl, skipped int) {
 		default:
 			props = []string{"C07"}
 		}
+		if r.entry.Lang == "lua" {
+			props = append(props, "C15")
+			if r.entry.Dir != "dec" {
+				props = []string{"C15"}
+			}
+		}
 		switch r.cell.Kind {
 		case "checksum":
 			props = append(props, "C06")
